@@ -404,10 +404,8 @@ fn execute(sc: &Scenario, osim: SimOs, rep: &mut RunReport) {
                 _ => *value == Variable::Void,
             }
         };
-        if injected.is_empty() {
-            // no fault in flight: the call must do exactly what the documented operation does to
-            // the pre-state - same result (value or error struct), same post-state
-            let (want_op, want_args): (String, Vec<String>) = if call.func == "io.cgetline" {
+        // what the documented operation does to the pre-state (no fault)
+        let (want_op, want_args): (String, Vec<String>) = if call.func == "io.cgetline" {
                 ("stdin_read_line".into(), vec![])
             } else {
                 let name = call.func.trim_start_matches("fs.");
@@ -427,6 +425,16 @@ fn execute(sc: &Scenario, osim: SimOs, rep: &mut RunReport) {
             } else {
                 simplesl_verif_seams::fs::model_apply(&mut predicted, &want_op, &want_args).map_err(|e| (e.kind() as i64, e.to_string()))
             };
+        // a scripted EINTR on stdin is a transient like an injected one: the call is judged by
+        // the rules for calls with a fault in flight
+        let transient_stdin = want_op == "stdin_read_line" && matches!(&pred, Err((k, _)) if *k == std::io::ErrorKind::Interrupted as i64);
+        let as_documented = match &pred {
+            Ok(repr) => success_ok(&value, repr),
+            Err((kind, msg)) => error_struct_matches(&value, *kind, msg),
+        };
+        if injected.is_empty() && !transient_stdin {
+            // no fault in flight: the call must do exactly what the documented operation does to
+            // the pre-state - same result (value or error struct), same post-state
             match &pred {
                 Ok(repr) => {
                     if !success_ok(&value, repr) {
@@ -441,11 +449,7 @@ fn execute(sc: &Scenario, osim: SimOs, rep: &mut RunReport) {
                     // EINTR is transient by nature: reading again is as legitimate as reporting it
                     // (std itself retries it in most read loops); the value is then the data of the
                     // last read of this invocation, which must have succeeded
-                    let retried_eintr = want_op == "stdin_read_line"
-                        && *kind == std::io::ErrorKind::Interrupted as i64
-                        && entries.len() > 1
-                        && matches!(entries.last().map(|e| &e.result), Some(CallResult::Ok(r)) if success_ok(&value, r));
-                    if !error_struct_matches(&value, *kind, msg) && !retried_eintr {
+                    if !error_struct_matches(&value, *kind, msg) {
                         rep.violation = Some((
                             "wrong-result".into(),
                             format!("call {ci} `{text}`: the documented operation {want_op}{want_args:?} fails with kind {kind} `{msg}` on this file tree, but the function returned {}", cvar(&value)),
@@ -454,7 +458,11 @@ fn execute(sc: &Scenario, osim: SimOs, rep: &mut RunReport) {
                     }
                 }
             }
-            if want_op != "stdin_read_line" {
+            // the file tree is judged after a call that reported SUCCESS. What a call that
+            // (correctly) reported a failure leaves behind - a partial write, a clean-up, nothing -
+            // is its own business: C18 does not speak about it (negative control M18e, which removes
+            // the target after any failed write, deleted an unwritable file and was reported)
+            if want_op != "stdin_read_line" && !is_err_struct {
                 let now = os::with(|o| o.nodes.clone()).unwrap();
                 if now != predicted.nodes {
                     rep.violation = Some((
@@ -464,6 +472,10 @@ fn execute(sc: &Scenario, osim: SimOs, rep: &mut RunReport) {
                     return;
                 }
             }
+        } else if as_documented {
+            // a fault was in flight and the call nevertheless did what the documented operation does
+            // on this state (e.g. a retry after a transient, followed by the library's own check of
+            // what it read): nothing to object to
         } else if is_err_struct {
             // a fault was injected: the function may fail, but only with the error of an OS call that failed
             let ok = entries.iter().any(|e| matches!(&e.result, CallResult::Err(k, m) if error_struct_matches(&value, *k, m)));
@@ -497,8 +509,12 @@ fn execute(sc: &Scenario, osim: SimOs, rep: &mut RunReport) {
                     _ => None,
                 })
                 .collect();
+            let all_ok_reads: String = entries.iter().filter_map(|e| match &e.result {
+                CallResult::Ok(r) => Some(r.as_str()),
+                _ => None,
+            }).collect();
             let ok = match (call.func.as_str(), last_ok) {
-                ("io.cgetline", Some(r)) => success_ok(&value, &r) || success_ok(&value, &after_failure),
+                ("io.cgetline", Some(r)) => success_ok(&value, &r) || success_ok(&value, &after_failure) || success_ok(&value, &all_ok_reads),
                 ("fs.file_read_to_string", Some(r)) => success_ok(&value, &r) || success_ok(&value, &after_failure),
                 ("fs.file_read_to_string" | "io.cgetline", None) => false,
                 (_, Some(_)) => value == Variable::Void,
